@@ -233,6 +233,32 @@ Definition db_search (s : state) q m (srt : bool) : state * out :=
   | Some None => match scan_filter q m (st_rows s) with None => (s, ORaise) | Some l => (s, fin l) end
   end.
 
+(* the key strings of select(): "time", "measurement", "tags.<key>", "fields.<key>" with a non-empty <key>; anything else is a
+   ValueError (None).  All keys are validated before anything is read. *)
+Fixpoint str_prefix (p s : str) : bool :=
+  match p, s with
+  | [], _ => true
+  | a :: p', b :: s' => N.eqb a b && str_prefix p' s'
+  | _ :: _, [] => false
+  end.
+Definition s_time : str := [116; 105; 109; 101]%N.
+Definition s_measurement : str := [109; 101; 97; 115; 117; 114; 101; 109; 101; 110; 116]%N.
+Definition s_tags_dot : str := [116; 97; 103; 115; 46]%N.
+Definition s_fields_dot : str := [102; 105; 101; 108; 100; 115; 46]%N.
+Definition parse_selkey (k : str) : option selkey :=
+  if str_eqb k s_time then Some SKTime
+  else if str_eqb k s_measurement then Some SKMeas
+  else if str_prefix s_tags_dot k && Nat.ltb 5 (length k) then Some (SKTag (skipn 5 k))
+  else if str_prefix s_fields_dot k && Nat.ltb 7 (length k) then Some (SKField (skipn 7 k))
+  else None.
+Fixpoint parse_selkeys (ks : list str) : option (list selkey) :=
+  match ks with
+  | [] => Some []
+  | k :: r => match parse_selkey k, parse_selkeys r with Some a, Some l => Some (a :: l) | _, _ => None end
+  end.
+Definition print_selkey (k : selkey) : str :=
+  match k with SKTime => s_time | SKMeas => s_measurement | SKTag t => s_tags_dot ++ t | SKField f => s_fields_dot ++ f end.
+
 Definition db_select (s : state) (ks : option (list selkey)) q m : state * out :=
   let s := read_prelude s in
   match ks with
